@@ -172,14 +172,15 @@ package provider
 //@             len(asrt().AuthnStatement) == 1 && asrt().AuthnStatement[0].AuthnInstant == asrt().IssueInstant && asrt().AuthnStatement[0].SessionIndex == asrt().Id &&
 //@             len(asrt().AttributeStatement) == 1
 //@   ## C04 (IdP side): what is signed is what is sent, and no Success assertion leaves unsigned
-//@   ensures C04.success-in-form-or-body-has-enveloped-signature-over-the-assertion-sent: succ() && emitKind != 2 && storedBindingSupported() ==>
+//@   ensures C01,C04.success-in-form-or-body-has-enveloped-signature-over-the-assertion-sent: succ() && emitKind != 2 && storedBindingSupported() ==>
 //@             asrt().Signature != nil && signCount == old(signCount) + 1 && signedTag == typetag("saml.AssertionType") && encVer == signedVer + 1 &&
 //@             eqExcept(as(signedBox, "saml.AssertionType"), asrt(), "Signature") && as(signedBox, "saml.AssertionType").Signature == nil
 //@   ensures C04.enveloped-signature-is-the-one-created: succ() && emitKind != 2 && storedBindingSupported() ==> asrt().Signature == sigOut &&
 //@             sigOver(signedBy, signedTag, signedBox) == signedRes
-//@   ensures C04.redirect-signature-is-over-the-parameters-sent: succ() && emitKind == 2 ==> signStrCount == old(signStrCount) + 1 &&
+//@   ensures C01,C03,C04.redirect-signature-is-over-the-parameters-sent: succ() && emitKind == 2 ==> signStrCount == old(signStrCount) + 1 &&
 //@             sentRedirect(arAcsURL(arReq), arRelayState(arReq), p.conf.SignatureAlgorithm,
 //@               b64enc(signStr(signCtx, redirectQuery(b64enc(deflate(msgBytes())), arRelayState(arReq), p.conf.SignatureAlgorithm, ""))))
+//@   ensures C01,C04.redirect-success-carries-a-signature: succ() && emitKind == 2 ==> signStr(signCtx, signedStr) != "" && b64enc(signStr(signCtx, signedStr)) != ""
 //@   ensures C04.redirect-only-for-redirect-binding-with-consumer-url: succ() && emitKind == 2 ==> arBinding(arReq) == RedirectBinding && arAcsURL(arReq) != ""
 //@
 //@ ## ---- SSO endpoint ----
